@@ -787,6 +787,9 @@ class InterpStmts:
         SV = self.SV
         label = "loop%s" % ordinal
         invs = lc.get("inv") or lc.get("invariant") or []
+        # an invariant / staged assert may be given as {"inv" | "assert": text, "using": [texts of earlier staged asserts]}
+        inv_using = {i: x.get("using") for i, x in enumerate(invs) if isinstance(x, dict)}
+        invs = [x["inv"] if isinstance(x, dict) else x for x in invs]
         ghost_init = [n for t in (lc.get("ghost_init") or []) for n in ast.parse(t).body]
         ghost_step = [n for t in (lc.get("ghost_step") or []) for n in ast.parse(t).body]
         if lc.get("seq_as") and getattr(spec, "as_list", None) is not None:
@@ -879,20 +882,32 @@ class InterpStmts:
                         for s2 in s2list:
                             # staged assertions at the end of an iteration (proved first, then available as facts for the
                             # invariant re-establishment): they only add consequences; at_iter() refers to the start of THIS iteration
+                            hint_forms = {}
                             for hi, hint in enumerate(lc.get("step_hints") or []):
+                                using = None
+                                if isinstance(hint, dict):
+                                    hint, using = hint["assert"], hint.get("using")
                                 s_hint = s2.copy()          # (must not reuse the name of the loop-head state `sh`: it is needed for the exit)
                                 s_hint.entry2 = st.entry
                                 s_hint.entry = st
                                 g = self.eval_spec(hint, s_hint, {"done": done_next, **self.loop_ghost(spec)})
-                                self.emit(s2, "assert", "%s.step_hint[%d]" % (label, hi), g)
+                                if using is not None and any(u not in hint_forms for u in using):
+                                    raise Unsupported("`using` of %s.step_hint[%d] names a text that is not an earlier staged assert" % (label, hi))
+                                self.emit(s2, "assert", "%s.step_hint[%d]" % (label, hi), g,
+                                          focus=None if using is None else [hint_forms[u] for u in using])
                                 s2 = s2.assume(g)
+                                hint_forms[hint] = g
                             s2c = s2.copy()
                             s2c.entry2 = st.entry
                             s2c.entry = st
                             s2c.iter0 = st.iter0
                             for i, inv in enumerate(invs):
                                 g = self.eval_spec(inv, s2c, {"done": done_next, **self.loop_ghost(spec)})
-                                self.emit(s2, "inv-step", "%s[%d]" % (label, i), g)
+                                using = inv_using.get(i)
+                                if using is not None and any(u not in hint_forms for u in using):
+                                    raise Unsupported("`using` of %s[%d] names a text that is not a staged assert of the loop" % (label, i))
+                                self.emit(s2, "inv-step", "%s[%d]" % (label, i), g,
+                                          focus=None if using is None else [hint_forms[u] for u in using])
                     elif tag == "break":
                         s3 = s2.copy()
                         s3.modstack = st.modstack
